@@ -21,6 +21,7 @@ struct C20TPlan
   int t0_records;            // thread 0 records too
   int sequential;            // 1: every recording thread is joined before the next starts (thread ids recur)
   int extra_save;            // 1: the log is saved twice in a row at the end, 2: also once before anything is recorded (same file; the last file counts)
+  int cxx_locale;            // 1: the application has made the user's locale (decimal comma, digit grouping) the global C++ locale
   int huge_names;            // 1: every event carries a name of 40000-100000 characters (few events make megabytes of log text)
   int many_names;            // 1: event names come from a pool of 200 distinct strings (short and long), not from 4
 };
@@ -38,6 +39,7 @@ const char *c20_path();
 void c20t_thread_begin(int slot, int named, unsigned long long thread_key);
 void c20t_recorded(int slot, int kind, int name, int cat, unsigned long long value);
 void c20t_saved();
+void c20t_locale_result(int adopted);
 void c20trace_run();
 
 const C20IPlan *c20i_plan();
